@@ -187,3 +187,141 @@ theorem strRe_match (W : CSet) {Q NQ BS ANY q bs} (h : StrOK Q NQ BS ANY q bs) (
   simp [Pos.fin]
 
 end MindsVerif.Re
+
+namespace MindsVerif.Re
+
+/-! ### the double-quoted literal regex `" (?: \\ . (?=[^"]*") | [^"] )* "` on a text made of plain characters and
+backslash pairs (what `json.dumps(…, ensure_ascii=False)` writes: `\"`, `\\`, `\n`, `\uXXXX`, everything else as it is) -/
+
+def dqRe (Q NQ BS ANY : CSet) : Re := .seq (.set Q) (.seq (.star true (strX Q NQ BS ANY)) (.set Q))
+
+/-- an item of the body: a plain character (no quote, no backslash) or a backslash followed by a character -/
+inductive DqItem where
+  | ch (c : Nat)
+  | esc (x : Nat)
+  deriving Repr
+
+def DqItem.text (bs : Nat) : DqItem → List Nat
+  | .ch c => [c]
+  | .esc x => [bs, x]
+
+def dqBody (bs : Nat) (items : List DqItem) : List Nat := items.flatMap (DqItem.text bs)
+
+def DqItem.ok (ANY : CSet) (q bs : Nat) : DqItem → Prop
+  | .ch c => c ≠ q ∧ c ≠ bs ∧ c ≤ 1114111
+  | .esc x => ANY.mem x = true
+
+/-- `[^"]*"` succeeds wherever a quote still follows -/
+theorem look_any (W : CSet) {Q NQ BS ANY q bs} (h : StrOK Q NQ BS ANY q bs) :
+    ∀ (s : List Nat) (pre : List Nat), q ∈ s → (∀ c ∈ s, c ≤ 1114111) → ∃ a, m W (strL Q NQ) ⟨pre, s⟩ some = some a := by
+  intro s
+  induction s with
+  | nil => intro _ hq; cases hq
+  | cons c t ih =>
+    intro pre hq hle
+    unfold strL
+    rw [m_seq, m_star]
+    by_cases hc : c = q
+    · subst hc
+      refine ⟨⟨c :: pre, t⟩, ?_⟩
+      simp [starLoop, m, h.nq, h.qq, Option.orElse]
+    · have hq' : q ∈ t := by
+        rcases List.mem_cons.mp hq with h0 | h0
+        · exact absurd h0.symm hc
+        · exact h0
+      obtain ⟨a, ha⟩ := ih (c :: pre) hq' (fun x hx => hle x (List.mem_cons_of_mem _ hx))
+      unfold strL at ha
+      rw [m_seq, m_star] at ha
+      refine ⟨a, ?_⟩
+      have hN : NQ.mem c = true := h.nn c hc (hle c List.mem_cons_self)
+      -- one more iteration of the greedy `[^"]*`, then the same run as from `t`
+      have hfuel : ∀ n k, t.length < n → starLoop (fun q k' => m W (.set NQ) q k') true (n + 1) ⟨pre, c :: t⟩ k
+          = (starLoop (fun q k' => m W (.set NQ) q k') true n ⟨c :: pre, t⟩ k).orElse fun _ => k ⟨pre, c :: t⟩ := by
+        intro n k _
+        simp [starLoop, m, hN]
+      rw [show (Pos.mk pre (c :: t)).suf.length + 1 = (t.length + 1) + 1 from by simp]
+      rw [hfuel _ _ (by omega)]
+      simp only at ha
+      rw [show (Pos.mk (c :: pre) t).suf.length + 1 = t.length + 1 from rfl] at ha
+      rw [ha]
+      rfl
+
+theorem look_ok_any (W : CSet) {Q NQ BS ANY q bs} (h : StrOK Q NQ BS ANY q bs) (pre s : List Nat)
+    (hq : q ∈ s) (hle : ∀ c ∈ s, c ≤ 1114111) (k : Pos → Option Pos) :
+    m W (.look false (strL Q NQ)) ⟨pre, s⟩ k = k ⟨pre, s⟩ := by
+  obtain ⟨a, ha⟩ := look_any W h s pre hq hle
+  simp only [m]
+  rw [ha]
+  simp
+
+theorem dqX_star (W : CSet) {Q NQ BS ANY q bs} (h : StrOK Q NQ BS ANY q bs) (hle : bs ≤ 1114111) (hqle : q ≤ 1114111)
+    {step : Pos → (Pos → Option Pos) → Option Pos} (hstep : ∀ p k, step p k = m W (strX Q NQ BS ANY) p k) :
+    ∀ (items : List DqItem) (pre : List Nat) (n : Nat) (K : Pos → Option Pos) (a : Pos),
+    (∀ it ∈ items, it.ok ANY q bs) → (∀ c ∈ dqBody bs items, c ≤ 1114111) → (dqBody bs items).length < n →
+    K ⟨(dqBody bs items).reverse ++ pre, [q]⟩ = some a →
+    starLoop step true n ⟨pre, dqBody bs items ++ [q]⟩ K = some a := by
+  intro items
+  induction items with
+  | nil =>
+    intro pre n K a _ _ hn hK
+    cases n with
+    | zero => omega
+    | succ n =>
+      simp only [dqBody, List.flatMap_nil, List.nil_append, starLoop, if_true]
+      rw [hstep]
+      unfold strX
+      rw [m_alt, m_seq, m_set_cons, if_neg (by simp [h.bq]), m_set_cons, if_neg (by simp [h.nq])]
+      simpa [Option.orElse, dqBody] using hK
+  | cons it t ih =>
+    intro pre n K a hok hcp hn hK
+    have hit := hok it List.mem_cons_self
+    have hokt : ∀ x ∈ t, x.ok ANY q bs := fun x hx => hok x (List.mem_cons_of_mem _ hx)
+    have e : dqBody bs (it :: t) = it.text bs ++ dqBody bs t := by simp [dqBody]
+    have hcpt : ∀ c ∈ dqBody bs t, c ≤ 1114111 := fun c hc => hcp c (by rw [e]; exact List.mem_append_right _ hc)
+    cases n with
+    | zero => omega
+    | succ n =>
+      cases it with
+      | ch c =>
+        have e' : dqBody bs (DqItem.ch c :: t) = c :: dqBody bs t := by simp [dqBody, DqItem.text]
+        rw [e'] at hn hK ⊢
+        obtain ⟨h1, h2, h3⟩ := hit
+        have := ih (c :: pre) n K a hokt hcpt (by simp at hn ⊢; omega) (by simpa using hK)
+        simp only [List.cons_append, starLoop, if_true]
+        rw [hstep]
+        unfold strX
+        rw [m_alt, m_seq, m_set_cons, if_neg (by simp [h.nb c h2]), m_set_cons, if_pos (h.nn c h1 h3)]
+        have hlt : (dqBody bs t ++ [q]).length < (c :: (dqBody bs t ++ [q])).length := by simp
+        simp only [hlt, if_true, this]
+        rfl
+      | esc x =>
+        have e' : dqBody bs (DqItem.esc x :: t) = bs :: x :: dqBody bs t := by simp [dqBody, DqItem.text]
+        rw [e'] at hn hK ⊢
+        have := ih (x :: bs :: pre) n K a hokt hcpt (by simp at hn ⊢; omega) (by simpa using hK)
+        have hx : ANY.mem x = true := hit
+        simp only [List.cons_append, starLoop, if_true]
+        rw [hstep]
+        unfold strX
+        rw [m_alt, m_seq, m_set_cons, if_pos h.bb, m_seq, m_set_cons, if_pos hx,
+          look_ok_any W h (x :: bs :: pre) (dqBody bs t ++ [q]) (by simp)
+            (fun c hc => by
+              rcases List.mem_append.mp hc with h0 | h0
+              · exact hcpt c h0
+              · simp only [List.mem_cons, List.not_mem_nil, or_false] at h0; rw [h0]; exact hqle)]
+        have hlt : (dqBody bs t ++ [q]).length < (bs :: x :: (dqBody bs t ++ [q])).length := by simp
+        simp only [hlt, if_true, this]
+        rfl
+
+/-- **the double-quoted literal regex on quote, items, quote**: matched as a whole -/
+theorem dqRe_match (W : CSet) {Q NQ BS ANY q bs} (h : StrOK Q NQ BS ANY q bs) (hle : bs ≤ 1114111) (hqle : q ≤ 1114111)
+    (items : List DqItem) (hok : ∀ it ∈ items, it.ok ANY q bs) (hcp : ∀ c ∈ dqBody bs items, c ≤ 1114111) (pre : List Nat) :
+    matchAt W (dqRe Q NQ BS ANY) ⟨pre, q :: (dqBody bs items ++ [q])⟩
+      = some (Pos.mk pre (q :: (dqBody bs items ++ [q]))).fin := by
+  unfold matchAt dqRe
+  rw [m_seq, m_set_cons, if_pos h.qq, m_seq, m_star]
+  apply dqX_star W h hle hqle (step := fun p k' => m W (strX Q NQ BS ANY) p k') (fun _ _ => rfl) items (q :: pre) _ _ _ hok hcp
+    (by simp <;> omega)
+  rw [m_set_cons, if_pos h.qq]
+  simp [Pos.fin]
+
+end MindsVerif.Re
